@@ -128,5 +128,18 @@ def _incomplete_last_record(viol, scenario):
     make an entry; the reader leaves such a tail out without an error at the end of the file."""
     f = scenario.get("file") or {}
     fault = scenario.get("fault") or {}
-    return (viol.oracle == "must_raise" and f.get("format") == "fastq" and fault.get("class") == "plus_removed"
-            and fault.get("record") == f.get("n_records", 0) - 1)
+    if not (viol.oracle == "must_raise" and f.get("format") == "fastq" and fault.get("class") == "plus_removed"):
+        return False
+    if fault.get("record") == f.get("n_records", 0) - 1:
+        return True
+    # the '+' line of an EARLIER record is missing and the shifted lines happen to pass as records (a quality line that
+    # starts with '+', a header of the right length taken for qualities): what is left at the end of the file is again
+    # an incomplete entry, and that alone is why nothing is reported - every complete group of four lines was delivered
+    from . import core
+    bad = core.unesc(scenario.get("bad_data", ""))
+    n_lines = bad.count(b"\n") + (0 if bad.endswith(b"\n") or not bad else 1)
+    try:
+        n_rows = int(viol.detail.get("n_rows"))
+    except (TypeError, ValueError):
+        return False
+    return n_lines % 4 != 0 and n_rows == n_lines // 4
